@@ -260,18 +260,28 @@ structure StageState where
   stages : List Nat          -- StageMap.last_lookup
   stageIndex : Nat
 
+/-- the lookups the required feature contributes to stage `stage` (mask = GLOBAL_BIT_MASK) -/
+def stageReqLookups (c : Cfg) (font : Font) (t : Nat) (reqStage stage : Nat) : List LMap :=
+  match (if font.present t then font.required t else none) with
+  | some (fi, _) => if reqStage = stage then addLookups font t fi c.globalBit true true false false else []
+  | none => []
+
+/-- the lookups map entry `f` contributes to stage `stage` of table `t` (mask = the feature's mask) -/
+def stageFeatLookups (font : Font) (t : Nat) (stage : Nat) (f : FMap) : List LMap :=
+  match (if t = 0 then f.index0 else f.index1) with
+  | some fi => if (if t = 0 then f.stage0 else f.stage1) = stage
+               then addLookups font t fi f.mask f.autoZwnj f.autoZwj f.random f.perSyllable else []
+  | none => []
+
+/-- everything `add_lookups` pushed during one stage, before "Sort lookups and merge duplicates":
+    a lookup index occurs once per (feature, occurrence in the feature's list) that references it -/
+def stageTail (c : Cfg) (font : Font) (t : Nat) (feats : List FMap) (reqStage stage : Nat) : List LMap :=
+  stageReqLookups c font t reqStage stage ++ feats.flatMap (stageFeatLookups font t stage)
+
 /-- one iteration of `for stage in 0..self.current_stage[table_index]` -/
 def stageStep (c : Cfg) (font : Font) (t : Nat) (feats : List FMap) (reqStage : Nat) (pauses : List Nat)
     (st : StageState) (stage : Nat) : StageState :=
-  let reqL := match (if font.present t then font.required t else none) with
-    | some (fi, _) => if reqStage = stage then addLookups font t fi c.globalBit true true false false else []
-    | none => []
-  let featL := feats.flatMap (fun f =>
-    match (if t = 0 then f.index0 else f.index1) with
-    | some fi => if (if t = 0 then f.stage0 else f.stage1) = stage
-                 then addLookups font t fi f.mask f.autoZwnj f.autoZwj f.random f.perSyllable else []
-    | none => [])
-  let lookups := st.lookups ++ sortMergeTail (reqL ++ featL)
+  let lookups := st.lookups ++ sortMergeTail (stageTail c font t feats reqStage stage)
   match pauses[st.stageIndex]? with
   | some idx => if idx = stage then ⟨lookups, st.stages ++ [lookups.length], st.stageIndex + 1⟩
                 else ⟨lookups, st.stages, st.stageIndex⟩
